@@ -2,34 +2,51 @@
    Theorems only (proofs in AF.Lemmas.ResendL) about the model Fix/Resend.v of how the dispatcher
    serves a ResendRequest: serve_resend = the call site in _process_message (try / finally that
    restores ACTIVE when the handler leaves RESENDREQ_HANDLING) around _process_resend and what it
-   calls, with the repairs D12 (the journal is neither rewound nor rewritten, BeginSeqNo below 1 is
-   read as 1), R3c (state restored after an abort), R5a (numbers missing in the journal before a
-   retransmitted message are gap-filled) and R5b (the trailing gap fill stops at EndSeqNo).
+   calls, with the repairs D12, R3c, R5a, R5b, R6a (PossDupFlag / OrigSendingTime are set with
+   replace=True) and R6b (an EndSeqNo above sys.maxsize is read as "everything").
 
    The property for one request (bs, es = texts of tags 7 and 16, None = tag absent) with replay
    filter f in state s is the predicate  resend_correct f s bs es  (Lemmas/ResendL.v):
-     the frames written are  chain (rows s) f hi lo hi  over the requested range [lo, hi) of
-     already-sent numbers (a retransmission with the number kept, PossDupFlag=Y, OrigSendingTime =
-     the original SendingTime and the body otherwise identical for every journaled application
-     message the filter accepts; one GapFill(seq = first, NewSeqNo = next) per maximal run of other
-     numbers - session-level, declined, missing; hence no session-level message retransmitted);
+     the frames written are  chain (rows s) f hi lo hi  over the requested range
+     [lo, hi) = [max(1, Begin), max(lo, min(End + 1, next_num_out)))  of already-sent numbers:
+       - a retransmission for every journaled application message the filter accepts: number and
+         MsgType kept, body = copy_body r = the journaled body with PossDupFlag := Y and then
+         OrigSendingTime := the journaled SendingTime, where := overwrites the value of a tag the
+         message already carries (position kept) and appends a new tag at the end - for a message
+         that carries neither tag: body ++ [43=Y; 122=SendingTime] (C06_copy_of_plain_row);
+       - one GapFill(seq = first, NewSeqNo = next) per maximal run of other numbers (session-level,
+         declined, missing); hence no session-level message is retransmitted;
      nothing is written for a request that cannot be read, whose EndSeqNo is below its BeginSeqNo, or
      that asks for nothing that was sent; the WHOLE outbound journal, next_num_out (live and stored)
      and the connection state are what they were.
-   FULL STATEMENT (what C06 asks):   forall f s bs es, resend_correct f s bs es.
-   The "no side effects" half holds unconditionally (C06_no_side_effects); the reply half holds
-   outside two narrow classes; one refutation per class. *)
+   FULL STATEMENT (what C06 asks):  resend_correct f s bs es  for every filter, every request and
+   every reachable state.  It is C06_reply_chain below: no class of exceptions is left. *)
 From Coq Require Import ZArith NArith List Bool.
 From AF Require Import Base.Sx Py.Str Fix.Resend Lemmas.ResendL.
 From AFGen Require Import GenEnums.
 Import ListNotations.
 Open Scope Z_scope.
 
-(* UNCONDITIONAL (every state, journal, request - readable or not -, filter): serving a
-   ResendRequest never changes the outbound journal, next_num_out or the stored counter; the
-   exception that reaches the dispatcher is never DuplicateSeqNoError / FIXConnectionError /
-   EncodingError; the state afterwards is ACTIVE (RESENDREQ_AWAITING if it was) whether or not the
-   handler aborted; every frame written carries a MsgSeqNum of at least 1. *)
+(* THE THEOREM.  Every journal whose rows have unique numbers below next_num_out and are
+   encoder-shaped (journal_ok + NoDup: invariants of a journal written by send_msg, C05/C13) - with
+   holes anywhere, rows that themselves carry tag 43 / 122 -, every replay filter, both states in
+   which a ResendRequest is served, and EVERY request (tags absent or unreadable, any BeginSeqNo,
+   any EndSeqNo): the reply is exactly the chain over the requested range of already-sent numbers,
+   and journal, counters and state are what they were.  Unbounded in the journal. *)
+Theorem C06_reply_chain : forall f s bs es,
+  (cstate s = ST_ACTIVE \/ cstate s = ST_AWAITING) ->
+  journal_ok s -> NoDup (map r_seq (rows s)) ->
+  resend_correct f s bs es.
+Proof. exact resend_total. Qed.
+Print Assumptions C06_reply_chain.
+
+(* and for EVERY state and journal at all (no hypothesis): serving a ResendRequest never changes the
+   outbound journal, next_num_out or the stored counter; the only exceptions that can reach the
+   dispatcher are AssertionError (BeginSeqNo beyond next_num_out), TagNotFoundError, ValueError and
+   OverflowError (BeginSeqNo above 2^63-1 / EndSeqNo below -2^63) - never DuplicatedTagError,
+   DuplicateSeqNoError, FIXConnectionError, EncodingError; the state afterwards is ACTIVE
+   (RESENDREQ_AWAITING if it was) whether or not the handler aborted; every frame written carries a
+   MsgSeqNum of at least 1. *)
 Theorem C06_no_side_effects : forall f s bs es,
   let (s', x) := serve_resend f bs es s in
   rows s' = rows s /\ nout s' = nout s /\ sout s' = sout s
@@ -39,54 +56,31 @@ Theorem C06_no_side_effects : forall f s bs es,
 Proof. exact serve_general. Qed.
 Print Assumptions C06_no_side_effects.
 
-(* in the two states in which a request is served: the state afterwards is the state before, always *)
 Theorem C06_state_restored : forall f s bs es,
   (cstate s = ST_ACTIVE \/ cstate s = ST_AWAITING) -> cstate (fst (serve_resend f bs es s)) = cstate s.
 Proof. exact serve_state_restored. Qed.
 Print Assumptions C06_state_restored.
 
-(* The reply, unbounded in the journal: every journal with unique keys below the counter
-   (journal_ok: C05/C13 invariants) - with holes anywhere -, every replay filter, both start states
-   and EVERY request - unreadable, any BeginSeqNo (below 1, beyond the last sent number, beyond 64
-   bits), any EndSeqNo (0, bounded, below BeginSeqNo) - outside the two classes: the property holds
-   in full.  (in_class k bs es = k applied to the request as the handler reads it,
-   (max(1, int(tag 7)), int(tag 16)); false for an unreadable one.) *)
-Theorem C06_reply_chain_partial : forall f s bs es,
+(* the hypotheses of C06_reply_chain survive serving a request: any sequence of requests is answered correctly *)
+Theorem C06_repeated_requests : forall f s bs es f2 bs2 es2,
   (cstate s = ST_ACTIVE \/ cstate s = ST_AWAITING) ->
   journal_ok s -> NoDup (map r_seq (rows s)) ->
-  in_class (k_end_beyond_64 s) bs es = false ->               (* not: EndSeqNo > 2^63-1 while something sent is asked for *)
-  in_class (k_row_carries_possdup_tags f s) bs es = false ->  (* no replayed row in range was journaled with tag 43/122 *)
-  resend_correct f s bs es.
-Proof. exact resend_partial_total. Qed.
-Print Assumptions C06_reply_chain_partial.
+  resend_correct f2 (fst (serve_resend f bs es s)) bs2 es2.
+Proof. exact serve_repeatable. Qed.
+Print Assumptions C06_repeated_requests.
 
-(* an unreadable request (tag absent / not a number): nothing sent, everything as before *)
+(* pristine journals (original sends numbered 1..n, a suffix may be missing) meet the hypotheses *)
+Theorem C06_reply_chain_pristine : forall f s bs es,
+  (cstate s = ST_ACTIVE \/ cstate s = ST_AWAITING) -> pristine s -> resend_correct f s bs es.
+Proof. exact pristine_total. Qed.
+Print Assumptions C06_reply_chain_pristine.
+
+(* special cases spelled out *)
 Theorem C06_unreadable_request_ok : forall f s bs es,
   (cstate s = ST_ACTIVE \/ cstate s = ST_AWAITING) -> parse_req bs es = None -> resend_correct f s bs es.
 Proof. exact unreadable_correct. Qed.
 Print Assumptions C06_unreadable_request_ok.
 
-(* the state left behind satisfies the same hypotheses: any further request is answered correctly *)
-Theorem C06_repeated_requests : forall f s bs es f2 bs2 es2,
-  (cstate s = ST_ACTIVE \/ cstate s = ST_AWAITING) ->
-  journal_ok s -> NoDup (map r_seq (rows s)) ->
-  let s1 := fst (serve_resend f bs es s) in
-  in_class (k_end_beyond_64 s) bs2 es2 = false ->
-  in_class (k_row_carries_possdup_tags f2 s) bs2 es2 = false ->
-  resend_correct f2 s1 bs2 es2.
-Proof. exact serve_repeatable. Qed.
-Print Assumptions C06_repeated_requests.
-
-(* pristine journals (original sends numbered 1..n, a suffix may be missing): ANY BeginSeqNo and ANY
-   EndSeqNo up to 2^63-1 *)
-Theorem C06_reply_chain_pristine : forall f s bs es b e,
-  py_int bs = Some b -> py_int es = Some e -> e <= INT64_MAX ->
-  (cstate s = ST_ACTIVE \/ cstate s = ST_AWAITING) -> pristine s ->
-  resend_correct f s (Some bs) (Some es).
-Proof. exact pristine_total. Qed.
-Print Assumptions C06_reply_chain_pristine.
-
-(* a request with BeginSeqNo <= 0 is served exactly like BeginSeqNo = 1 *)
 Theorem C06_begin_nonpositive_as_one : forall f s bs es b,
   py_int bs = Some b -> b < 1 ->
   serve_resend f (Some bs) es s = serve_resend f (dec 1) es s
@@ -95,13 +89,19 @@ Theorem C06_begin_nonpositive_as_one : forall f s bs es b,
 Proof. exact begin_nonpositive_as_one. Qed.
 Print Assumptions C06_begin_nonpositive_as_one.
 
+(* "otherwise identical body" for a message that carries neither tag 43 nor tag 122 *)
+Theorem C06_copy_of_plain_row : forall r, clean r = true ->
+  copy_body r = r_body r ++ [(T_PossDupFlag, V_Y); (T_OrigSendingTime, r_time r)].
+Proof. exact copy_body_clean. Qed.
+Print Assumptions C06_copy_of_plain_row.
+
 (* what a chain is made of: every frame is the copy of a replayable journaled message or a gap fill *)
 Theorem C06_no_session_retransmit : forall J f lim a c W, chain J f lim a c W -> forall fr, In fr W ->
   (exists r, In r J /\ replayable f r = true /\ is_copy_of r fr) \/ (exists x h, is_gap_fill fr x h).
 Proof. exact chain_frames. Qed.
 Print Assumptions C06_no_session_retransmit.
 
-(* the row hypothesis of journal_ok / pristine is an invariant of journals written by send_msg,
+(* the row hypothesis of journal_ok is an invariant of journals written by send_msg,
    and replies to a ResendRequest never reach the journal *)
 Theorem C06_sent_rows_wellformed : forall m s s',
   send_msg m s = Ok s' ->
@@ -109,19 +109,19 @@ Theorem C06_sent_rows_wellformed : forall m s s',
 Proof. exact send_msg_frame_codec_row. Qed.
 Print Assumptions C06_sent_rows_wellformed.
 
-(* ---- concrete positive instances (replayed on the implementation by harness/c06.py) *)
+(* ---- the witnesses of the former known-finding classes, now positive (each is replayed on the
+   implementation by harness/c06.py) *)
 
+(* was C06-leftover-copy-in-range (D12) *)
 Theorem C06_second_request_ok :
-  pristine w_first /\ resend_correct w_all w_first (dec 2) (dec 0)
+  resend_correct w_all w_first (dec 2) (dec 0)
   /\ rows w_second = rows w_first /\ nout w_second = 4
   /\ resend_correct w_all w_second (dec 2) (dec 0)
   /\ map r_seq (wire (fst (serve_resend w_all (dec 2) (dec 0) w_second))) = [2; 3; 2; 3].
 Proof. exact second_request_ok. Qed.
 Print Assumptions C06_second_request_ok.
 
-(* BeginSeqNo beyond next_num_out, BeginSeqNo = "x", tag 7 absent: the handler aborts (AssertionError,
-   ValueError, TagNotFoundError), nothing is written or changed, the state goes HANDLING -> ACTIVE.
-   For these requests that IS the property ("... also when the request is invalid"). *)
+(* were C06-begin-beyond, C06-request-unparsable *)
 Theorem C06_unanswerable_requests_ok :
   resend_correct w_all w_small (dec 5) (dec 0)
   /\ resend_correct w_all w_small (Some [120%N]) (dec 0)
@@ -133,6 +133,7 @@ Theorem C06_unanswerable_requests_ok :
 Proof. exact unanswerable_requests_ok. Qed.
 Print Assumptions C06_unanswerable_requests_ok.
 
+(* was C06-begin-nonpositive *)
 Theorem C06_begin_nonpositive_example :
   resend_correct w_all w_small (dec 0) (dec 0) /\ resend_correct w_all w_small (dec (-3)) (dec 0)
   /\ (let (s', x) := serve_resend w_all (dec (-3)) (dec 0) w_small in
@@ -141,7 +142,7 @@ Theorem C06_begin_nonpositive_example :
 Proof. exact begin_nonpositive_example. Qed.
 Print Assumptions C06_begin_nonpositive_example.
 
-(* bounded EndSeqNo (was C06-bounded-end): the reply stops at EndSeqNo *)
+(* was C06-bounded-end *)
 Theorem C06_bounded_end_ok :
   resend_correct w_all w_bounded (dec 2) (dec 2) /\ resend_correct w_all w_bounded2 (dec 2) (dec 3)
   /\ map r_seq (wire (fst (serve_resend w_all (dec 2) (dec 2) w_bounded))) = [2]
@@ -150,8 +151,7 @@ Theorem C06_bounded_end_ok :
 Proof. exact bounded_end_ok. Qed.
 Print Assumptions C06_bounded_end_ok.
 
-(* a hole between two application rows is gap-filled (was C06-hole-before-replayed, D21):
-   rows {1,2,4,5} -> D2, GapFill(3 -> 4), D4, D5 *)
+(* was C06-hole-before-replayed (D21): rows {1,2,4,5} -> D2, GapFill(3 -> 4), D4, D5 *)
 Theorem C06_hole_ok :
   resend_correct w_all w_hole (dec 2) (dec 0)
   /\ (let s' := fst (serve_resend w_all (dec 2) (dec 0) w_hole) in
@@ -174,34 +174,31 @@ Theorem C06_holes_and_bounded_end_ok :
 Proof. exact holes_and_bounded_end_ok. Qed.
 Print Assumptions C06_holes_and_bounded_end_ok.
 
-(* ---- refutations of the full statement, one per remaining known-finding class (each witness is
-   replayed on the implementation; classes_of = the two predicates in the order of the partial theorem) *)
-
-(* EndSeqNo = 2^63 with BeginSeqNo = 2 of 2 sent: OverflowError, no answer to a valid request *)
-Theorem C06_end_beyond_64_refuted :
-  pristine w_small
-  /\ classes_of w_all w_small (dec 2) (dec two63) = (true, false)
-  /\ ~ resend_correct w_all w_small (dec 2) (dec two63)
+(* was C06-end-beyond-64-bits: EndSeqNo = 2^63 is answered like EndSeqNo = 0 *)
+Theorem C06_end_beyond_64_ok :
+  resend_correct w_all w_small (dec 2) (dec two63)
   /\ (let (s', x) := serve_resend w_all (dec 2) (dec two63) w_small in
-      x = Some EOverflow /\ wire s' = [] /\ cstate s' = ST_ACTIVE).
-Proof. exact end_beyond_64_refuted. Qed.
-Print Assumptions C06_end_beyond_64_refuted.
+      x = None /\ map r_seq (wire s') = [2] /\ map r_type (wire s') = [[68%N]] /\ cstate s' = ST_ACTIVE).
+Proof. exact end_beyond_64_ok. Qed.
+Print Assumptions C06_end_beyond_64_ok.
 
-(* an application message journaled with tag 43 (PossDupFlag=N) in its body is never retransmitted *)
-Theorem C06_possdup_tag_refuted :
-  journal_ok w_tagged /\ NoDup (map r_seq (rows w_tagged))
-  /\ classes_of w_all w_tagged (dec 2) (dec 0) = (false, true)
-  /\ ~ resend_correct w_all w_tagged (dec 2) (dec 0)
+(* was C06-row-carries-possdup-tags: [11=c2; 43=N; 55=SYM] is retransmitted as
+   [11=c2; 43=Y; 55=SYM; 122=T2], [122=X; 11=c3] as [122=T3; 11=c3; 43=Y] *)
+Theorem C06_possdup_tags_ok :
+  resend_correct w_all w_tagged (dec 2) (dec 0)
   /\ (let (s', x) := serve_resend w_all (dec 2) (dec 0) w_tagged in
-      x = Some EDuplicatedTag /\ wire s' = [] /\ cstate s' = ST_ACTIVE).
-Proof. exact possdup_tag_refuted. Qed.
-Print Assumptions C06_possdup_tag_refuted.
+      x = None /\ map r_seq (wire s') = [2; 3]
+      /\ map r_body (wire s')
+         = [[([49; 49]%N, [99; 50]%N); (T_PossDupFlag, V_Y); ([53; 53]%N, [83; 89; 77]%N); (T_OrigSendingTime, time_str 2)];
+            [(T_OrigSendingTime, time_str 3); ([49; 49]%N, [99; 51]%N); (T_PossDupFlag, V_Y)]]
+      /\ rows s' = rows w_tagged /\ cstate s' = ST_ACTIVE).
+Proof. exact possdup_tags_ok. Qed.
+Print Assumptions C06_possdup_tags_ok.
 
 (* non-vacuity: a journal with application, session, SequenceReset and declined rows and a missing
-   suffix, in RESENDREQ_AWAITING, meets every hypothesis of C06_reply_chain_partial *)
+   suffix, in RESENDREQ_AWAITING, meets the hypotheses of C06_reply_chain *)
 Example C06_nonvacuous :
   journal_ok w_rich /\ NoDup (map r_seq (rows w_rich)) /\ cstate w_rich = ST_AWAITING
-  /\ classes_of w_filter w_rich (dec 2) (dec 0) = (false, false)
   /\ (let s' := fst (serve_resend w_filter (dec 2) (dec 0) w_rich) in
       map r_seq (wire s') = [2; 3; 5; 6] /\ map r_type (wire s') = [[68%N]; MT_SEQUENCERESET; [68%N]; MT_SEQUENCERESET]
       /\ map (fun r => get_tag T_NewSeqNo (r_body r)) (wire s') = [None; Some [53%N]; None; Some [57%N]]
